@@ -92,6 +92,7 @@ def run(ctx, rep):
         rep.ob("single-writer", "uses-write_to_buffer", len(w2b) >= 1, "the computed value goes through write_to_buffer (range checked, C12)", ar.file, ar.line)
     got_slot_layout(ctx, rep, F, P)
     tlsld_offset(ctx, rep, F, P)
+    _merged_string_references(ctx, rep)
     rep.assume("values depend on layout addresses and the dynamic loader: not decided")
 
 
@@ -256,3 +257,23 @@ def tlsld_offset(ctx, rep, F, P):
                 rep.ob("tlsld-offset", f"offset-word#{n}", ok, f"offset word derives from calls {sorted(names)}" + ("" if ok else
                        ": DtpOff is computed against the aligned end of the TLS segment, so the pair's offset must be tp_offset_start - tls_start_address"), b.file, st["l"])
     rep.floor("tlsld-offset", "offset words found", n, 1)
+
+
+def _merged_string_references(ctx, rep):
+    """A relocation whose target lies in a SHF_MERGE|SHF_STRINGS section gets its value from string_merging::get_merged_string_output_address / find_string.
+    The clauses that decide whether that value is the address of the *referenced* string are C07's rules (shared implementation), reported here because a
+    wrong answer is a wrong relocated value."""
+    import C07
+    import framework
+    sub = framework.Report("C07")
+    C07.run(ctx, sub)
+    rep.rule("merged-string-references", "references into merged-string sections resolve to the referenced string: both offset tables are consulted, the backward search "
+             "keeps the distance, the addend is applied once, and the start addresses use the part the strings were written to (C07's rules, shared)")
+    n = 0
+    for o in sub.obligations:
+        if o["rule"] in ("lookup-both-tables", "fallback-distance", "addend-once", "same-part"):
+            n += 1
+            w = o.get("where", "") or ""
+            f, _, l = w.rpartition(":")
+            rep.ob("merged-string-references", f"{o['rule']}:{o['instance']}", o["ok"], o["detail"], f or None, int(l) if l.isdigit() else None)
+    rep.floor("merged-string-references", "shared obligations", n, 10)
